@@ -49,6 +49,12 @@ CLAIMED = {
  "C20": ("append-aliasing analysis on SSA (append on a parameter slice, in-place mutation of the result, parameter handed back) and store-before-error-return reachability in the setters",
          "Decides that a rejected Exons.Add cannot have touched the receiver's backing array and that SetExons/SetFeatures store into the receiver only after every check has passed — the 'rejected updates leave the previous exon set exactly as it was' clause. Tiling and position/orientation composition are value-level and not decided.",
          "append reuses spare capacity of its first argument", "DESIGN.md §2.O, §4/C20"),
+ "C14": ("polynomial normal form of the q-gram threshold function and role check of its call; SSA branch-polarity analysis of every tube emission and tube retirement in the filter",
+         "Decides two necessary conditions of 'no false negatives': the threshold is exactly Ukkonen's n+1-k(e+1) computed from (match length, word size, error bound), and a tube is emitted exactly when Count >= threshold (inclusive) at all three retirement sites, with no retirement path that skips the comparison. Tube geometry, ticker recycling and diagonal arithmetic — the theorem itself — are value-level and not decided.",
+         "the q-gram lemma; roles of Filter fields are those filter.New assigns", "DESIGN.md §2.J/P, §4/C14"),
+ "C15": ("SSA branch-polarity analysis of the only hit emission in the DP kernel (both extents >= minLen, error estimate <= maxDiff, Error assigned the tested value) and wiring of minLen/maxDiff in AlignTraps",
+         "Decides one clause: every emitted hit passed the stated length and identity tests, its Error is the tested value, and the thresholds are the user's minimum hit length and 1 - minimum identity. Score optimality, coordinate bounds and recall of planted repeats are value-level and not decided.",
+         "the kernel's Hit position fields mean what their names say", "DESIGN.md §2.P, §4/C15"),
  "C17": ("constant-table consistency check over go/types constant values of the built-in alphabet definitions (AST + types)",
          "Decides, for the seven built-in alphabets, every clause the property states about their *definitions* (distinct ASCII letters, involutive case-preserving pairing closed over the alphabet, 3-minus-index complement rule, gap at index 0) from the constants in the source. It does not decide that the constructors build the tables the definitions describe.",
          "go/types constant evaluation; constructors interpret their arguments positionally", "DESIGN.md §2.J, §4/C17"),
